@@ -89,6 +89,31 @@ def workerWrites (env : Env) (c : Cfg) : QItem → List Nat
   | .msg i => if env.fault i c.id .write = none ∧ c.kind ≠ .coroutine then [i] else []
   | _ => []
 
+/-- what awaiting the task of message `i` must put on stderr / hand to the event loop -/
+def taskEvents (env : Env) (c : Cfg) (i : Nat) : List Event :=
+  match env.fault i c.id .coroBody with
+  | none => []
+  | some e => if c.catch_ then [.report c.id (some i) e (env.strFails i) .task] else [.loopError c.id i e]
+
+/-- the handler loop of `_log` told with `expected` instead of `Handler.emit` -/
+def specLoop (env : Env) (i : Nat) : Reg → LoopRet
+  | [] => ⟨[], [], .ok⟩
+  | (c, s) :: rest =>
+    let r := expected env c i s
+    match r.res with
+    | .ok => let t := specLoop env i rest; ⟨(c, r.st) :: t.reg, r.ev ++ t.ev, t.res⟩
+    | x => ⟨(c, r.st) :: rest, r.ev, x⟩
+
+/-- the stderr reports the worker owes for one queue item: a failing `get` is reported without record,
+    a failing `write`/`flush` with the record -/
+def workerReports (env : Env) (c : Cfg) : QItem → List Event
+  | .bad _ e => [.report c.id none e false .worker]
+  | .msg i =>
+    match (rawWrite env c i default).2 with
+    | .raised e => [.report c.id (some i) e (env.strFails i) .worker]
+    | _ => []
+  | _ => []
+
 /-- stderr, when it fails, fails with an error `print` swallows (DESIGN §4 C04 *Outside*) -/
 def StderrTame (env : Env) : Prop :=
   ∀ i h e, env.stderr i h = .fails e → e = .osError
